@@ -38,7 +38,9 @@ UnwrapFrom(X, Y, U, raw, i, q) ==
   IF i > Len(X) THEN [Y |-> Y, U |-> U]
   ELSE LET r == UnwrapOne(X, Y, raw, i, q)
            U1 == IF r.used THEN [U EXCEPT ![r.lo] = TRUE, ![r.hi] = TRUE] ELSE U
-       IN UnwrapFrom(X, Append(Y, r.y), Append(U1, r.used), raw, i + 1, q)
+           Y2 == Append(Y, r.y)  U2 == Append(U1, r.used)
+       \* (the test forces Y2 and U2 here: TLC passes operator arguments unevaluated, and a chain of 60 pending Appends is re-walked at every use)
+       IN IF Len(Y2) = Len(U2) THEN UnwrapFrom(X, Y2, U2, raw, i + 1, q) ELSE [Y |-> Y2, U |-> U2]
 Unwrap(X, raw, mult) == UnwrapFrom(X, <<raw[1], raw[2]>>, <<TRUE, TRUE>>, raw, 3, Range(mult))
 
 \* the line from (x0,y0) to (x1,y1): value at bin x (x0 <= x < x1), the integer DDA of render_line
